@@ -283,10 +283,16 @@ func (fr *frame) applyContract(b *ssa.BasicBlock, site ssa.Instruction, con *Con
 	} else if nargs < len(con.SynParams) {
 		env[con.SynParams[nargs]] = res
 	}
+	var givens []Term
+	for _, c := range con.Givens {
+		ci := x.eng.clauses[c]
+		se := x.newSpecEnv(ci, env, h, h)
+		givens = append(givens, x.evalBool(se, clauseExpr(ci)))
+	}
 	for _, c := range con.Ensures {
 		ci := x.eng.clauses[c]
 		se := x.newSpecEnv(ci, env, nh, h)
-		x.sc.assertC(implies(reach, x.evalBool(se, clauseExpr(ci))), "callee ensures "+shortCallee(name)+": "+c.Text)
+		x.sc.assertC(implies(and(reach, and(givens...)), x.evalBool(se, clauseExpr(ci))), "callee ensures "+shortCallee(name)+": "+c.Text)
 	}
 	return res, nh
 }
